@@ -680,6 +680,10 @@ func genClose(seed uint64, n int, thorough bool, work string, errs *[]string) []
 		{true, false, false, true},       // one complete segment, open segment empty
 		{true, false, false, true, false, false}, // content, mid segment
 		{true, false, false, true, false, false, false},
+		// more complete segments than SegmentCount: real segments have been evicted before Close
+		// (their files must be gone as well when Close returns)
+		{true, false, true, false, true, false, true, false, true, false},
+		{true, false, true, false, true, false, true, false, true, false, true, false, true, false, true, false, true, false, true, false},
 	}
 	var bs []base
 	cfgs := []mcfg{
